@@ -1,6 +1,7 @@
 package main
 
 import (
+	"sync/atomic"
 	"errors"
 	"fmt"
 	"io"
@@ -92,12 +93,36 @@ func runC05(idx int, rng *rand.Rand, tier string) []Case {
 		defer lmu.Unlock()
 		return time.Duration(lrng.Intn(50)) * time.Microsecond
 	}
-	atk := vegeta.NewAttacker(vegeta.Client(&http.Client{Transport: rt}), vegeta.Workers(workers), vegeta.MaxWorkers(workers))
+	opts := []func(*vegeta.Attacker){vegeta.Client(&http.Client{Transport: rt}), vegeta.Workers(workers), vegeta.MaxWorkers(workers)}
+	shortTimeout := idx%5 == 2
+	if shortTimeout {
+		// the transport does not notice cancellation: exchanges outlast the client timeout
+		slow = true
+		rt.lat = func() time.Duration {
+			lmu.Lock()
+			defer lmu.Unlock()
+			return time.Duration(300+lrng.Intn(1500)) * time.Microsecond
+		}
+		opts = append(opts, vegeta.Timeout(200*time.Microsecond))
+	}
+	atk := vegeta.NewAttacker(opts...)
 	dur := 15 * time.Millisecond
 	rt.start = time.Now()
 	var rs []*vegeta.Result
 	limit := 4000
-	for r := range atk.Attack(vegeta.NewStaticTargeter(vegeta.Target{Method: "GET", URL: "http://x.example/"}), vegeta.ConstantPacer{}, dur, "c05") {
+	var tr vegeta.Targeter = vegeta.NewStaticTargeter(vegeta.Target{Method: "GET", URL: "http://x.example/"})
+	slowTargeter := idx%5 == 4
+	if slowTargeter { // a lazy targeter that blocks now and then, longer than a millisecond
+		var calls int64
+		inner := tr
+		tr = func(t *vegeta.Target) error {
+			if atomic.AddInt64(&calls, 1)%5 == 0 {
+				time.Sleep(1500 * time.Microsecond)
+			}
+			return inner(t)
+		}
+	}
+	for r := range atk.Attack(tr, vegeta.ConstantPacer{}, dur, "c05") {
 		rs = append(rs, r)
 		if len(rs) >= limit {
 			atk.Stop()
@@ -116,7 +141,7 @@ func runC05(idx int, rng *rand.Rand, tier string) []Case {
 	}
 	rt.mu.Unlock()
 	c.Tag = fmt.Sprintf("w%d;nt", workers)
-	c.Dist = fmt.Sprintf("workers%d/slow=%v/n%d", workers, slow, sizeClass(len(rs)))
+	c.Dist = fmt.Sprintf("workers%d/slow=%v/timeout=%v/slowtargeter=%v/n%d", workers, slow, shortTimeout, slowTargeter, sizeClass(len(rs)))
 	c.Sample = map[string]interface{}{"workers": workers, "results": len(rs), "transport_latency": slow}
 	return []Case{c}
 }
